@@ -807,3 +807,55 @@ def if_test_texts(func, nested=False):
                 t = t.operand
             out.append(norm(t))
     return out
+
+
+# ---------------------------------------------------------------------------- alias expansion
+_alias_cache = {}
+
+
+def alias_map(func):
+    """locals of func bound exactly once (by a plain assignment) to a side-effect-free expression: name -> value AST"""
+    hit = _alias_cache.get(id(func))
+    if hit is not None and hit[0] is func:
+        return hit[1]
+    val = _alias_map(func)
+    _alias_cache[id(func)] = (func, val)
+    return val
+
+
+def _alias_map(func):
+    cnt, val = {}, {}
+    for n in own_nodes(func):
+        if isinstance(n, ast.Name) and isinstance(n.ctx, (ast.Store, ast.Del)):
+            cnt[n.id] = cnt.get(n.id, 0) + 1
+    for a in stmts_in(func, ast.Assign):
+        if len(a.targets) == 1 and isinstance(a.targets[0], ast.Name):
+            impure = any(isinstance(x, (ast.Call, ast.Await, ast.Yield, ast.YieldFrom, ast.NamedExpr, ast.ListComp, ast.SetComp, ast.DictComp,
+                                        ast.GeneratorExp, ast.Lambda)) for x in ast.walk(a.value))
+            if not impure and cnt.get(a.targets[0].id) == 1:
+                val[a.targets[0].id] = a.value
+    return val
+
+
+def xnorm(expr, func, _depth=0):
+    """normalised text of expr with single-assignment pure locals of func expanded (`par.type` reads as `tree_name.parent.type` when
+    `par = tree_name.parent` is the only binding of par): for comparisons that must not depend on whether a temporary was introduced"""
+    am = alias_map(func)
+    if not am:
+        return norm(expr)
+
+    def clone(e):       # parent links hang on the nodes: a deep copy would drag the whole module along
+        return ast.parse(ast.unparse(e), mode='eval').body
+
+    class _X(ast.NodeTransformer):
+        def visit_Name(self, node):
+            if isinstance(node.ctx, ast.Load) and node.id in am and self.depth < 6:
+                self.depth += 1
+                r = self.visit(clone(am[node.id]))
+                self.depth -= 1
+                return r
+            return node
+    x = _X()
+    x.depth = 0
+    e = x.visit(clone(expr))
+    return norm(ast.fix_missing_locations(e))
